@@ -7,6 +7,9 @@
     Case.as_curl_command                          (src/schemathesis/generation/case.py:72; argument plumbing only)
     ScenarioRecorder.record_* / find_failure_data (src/schemathesis/engine/recorder.py:44-83) and the `on_failure` glue of
     validate_response                             (engine/phases/unit/_executor.py:304, engine/phases/stateful/_executor.py:272)
+    schemathesis.core.curl.get_excluded_headers   (src/schemathesis/core/curl.py:50; dict display + CaseInsensitiveDict)
+    sanitize_value on a flat mapping              (src/schemathesis/core/output/sanitization.py:150, as prepare_request
+                                                   applies it to the headers of the prepared request)
 
   Text is `List Char`.  The prepared request (method, url, body, headers) is an input: it is produced by
   `requests.Request(**kwargs).prepare()`, which is third-party code.  `bytes.decode("utf-8", errors="replace")`
@@ -405,5 +408,27 @@ def excludedItems (defaults : List (Str × Str)) (ua caseIdHeader : Str) : List 
     `caseIdHeader` = `SCHEMATHESIS_TEST_CASE_HEADER` -/
 def excludedTable (defaults : List (Str × Str)) (ua caseIdHeader : Str) : Table :=
   cidOf (pyDict (excludedItems defaults ua caseIdHeader))
+
+/-! ### output sanitization (src/schemathesis/core/output/sanitization.py `sanitize_value`, as `prepare_request` applies
+    it to the header mapping of the prepared request): a value is replaced when its key, lower-cased, is one of the
+    configured keys or contains one of the configured markers.  The configuration is an input. -/
+
+/-- `pat in s` -/
+def hasInfix (pat : Str) : Str → Bool
+  | [] => pat.isEmpty
+  | c :: cs => pat.isPrefixOf (c :: cs) || hasInfix pat cs
+
+structure SanConfig where
+  keys : List Str          -- `keys_to_sanitize`
+  markers : List Str       -- `sensitive_markers`
+  replacement : Str        -- `[Filtered]`
+  deriving Repr
+
+def sensitive (cfg : SanConfig) (k : Str) : Bool :=
+  cfg.keys.contains (lower k) || cfg.markers.any fun m => hasInfix m (lower k)
+
+/-- `sanitize_value(mapping)` on a flat mapping of strings -/
+def sanitizeFlat (cfg : SanConfig) (hs : List (Str × Str)) : List (Str × Str) :=
+  hs.map fun kv => if sensitive cfg kv.1 then (kv.1, cfg.replacement) else kv
 
 end SV.Model.C09
